@@ -84,6 +84,10 @@ def build_pool(tmp):
     add('ict_crlf', 'ffi1001', 'ffi1001', ict.replace(b'\r\n', b'\n').replace(b'\n', b'\r\n'))
     first, rest = ict.split(b'\n', 1)
     add('ict_blank', 'ffi1001', 'ffi1001', first.rstrip(b'\r') + b'  \n' + rest)
+    # a netCDF4 file cut short: it carries the HDF5 signature, but no reader can open it
+    nc4 = open([e for e in pool if e['tag'] == 'nc4.ncf'][0]['path'], 'rb').read()
+    for name, ext in (('cuthdf.nc', True), ('cuthdf_noext', False)):
+        pool.append({'tag': name, 'fmt': 'none', 'path': put(name, nc4[:600]), 'ext': ext, 'selfdesc': False, 'kw': {}})
     # files with a recognisable extension that no reader can open (detection fails part-way)
     for name in ('cut.humidity', 'cut.nc', 'cut.uamiv'):
         pool.append({'tag': name, 'fmt': 'none', 'path': put(name, b'abc'), 'ext': True, 'selfdesc': False, 'kw': {}})
@@ -184,7 +188,7 @@ def events(pool):
     return ev
 
 
-REDUCED = ('probe.sonde', 'avg.uamiv', 'kv.vertical_diffusivity', 'hum.humidity', 'ict.ffi1001', 'nc3.nc', 'io.ioapi', 'punch.bpch',
+REDUCED = ('cuthdf.nc', 'cuthdf_noext', 'nc4.ncf', 'nc4_noext', 'probe.sonde', 'avg.uamiv', 'kv.vertical_diffusivity', 'hum.humidity', 'ict.ffi1001', 'nc3.nc', 'io.ioapi', 'punch.bpch',
            'ict_crlf.ffi1001', 'cut.humidity', 'cut.nc', 'cut.uamiv', 'kv_noext', 'nc3_noext', 'junk_noext',
            'shared<-uamiv', 'shared<-nc3')
 REDUCED_EXPLICIT = ('avg.uamiv', 'ict.ffi1001', 'hum.humidity', 'kv_noext', 'nc3_noext')
@@ -272,6 +276,32 @@ def _winit(tmp):
         POOL = {'init_error': traceback.format_exc()}
 
 
+def _wide(e):
+    """auto-detected and explicitly named open of one file, each in its own forked child"""
+    out = []
+    for fmt in (None, e['fmt']):
+        rfd, wfd = os.pipe()
+        pid = os.fork()
+        if pid == 0:
+            os.close(rfd)
+            signal.alarm(60)
+            try:
+                os.write(wfd, json.dumps(do_open(e, fmt)).encode())
+            finally:
+                os._exit(0)
+        os.close(wfd)
+        buf = b''
+        while True:
+            b = os.read(rfd, 1 << 16)
+            if not b:
+                break
+            buf += b
+        os.close(rfd)
+        os.waitpid(pid, 0)
+        out.append(json.loads(buf.decode()) if buf else {'reader': 'raise:child', 'dims': [], 'data': 0})
+    return out
+
+
 def _wrun(hists):
     if isinstance(POOL, dict) and 'init_error' in POOL:
         raise RuntimeError('worker initialisation failed:\n' + POOL['init_error'])
@@ -310,6 +340,23 @@ class Prop(core.Prop):
         try:
             global POOL
             POOL = build_pool(tmp)
+            if 'explicit' in case:
+                # clause 2: auto-detected result == result with the format named
+                if 'desc' in case:
+                    from ..ref import camx_u
+                    wp = os.path.join(tmp, case['explicit'])
+                    with open(wp, 'wb') as fh:
+                        fh.write(camx_u.encode(camx_u.materialize(case['desc'])))
+                    e = {'tag': case['explicit'], 'fmt': case['desc']['fmt'], 'path': wp, 'ext': False, 'kw': {}}
+                else:
+                    e = [x for x in POOL if x['tag'] == case['explicit']][0]
+                a, ex = _wide(e)
+                vs = []
+                if a['reader'].startswith('raise') or (a['dims'], a['data']) != (ex['dims'], ex['data']):
+                    vs.append(viol('auto-differs-from-explicit', ('auto', e['fmt'], 'replay'),
+                                   '%s: auto-detected %s dims %r; format=%s gives %s dims %r'
+                                   % (e['tag'], a['reader'], a['dims'][:4], e['fmt'], ex['reader'], ex['dims'][:4])))
+                return result('viol' if vs else 'ok', vs, [], 2), None
             vs = judge(case['hist'], case['order'], baseline_obs(), run_history(case['hist'], case['order']))
             return result('viol' if vs else 'ok', vs, [], len(case['hist']) + len(POOL)), None
         finally:
@@ -411,6 +458,33 @@ def main(tier, seed, t0):
             core.fold(agg, (0, cid), {'explicit': e['tag']}, result('viol' if vs else 'ok-explicit', vs,
                                                                     [h64('file', e['tag'])], 2, h64('ex', e['tag']),
                                                                     h64(repr(a))))
+            cid += 1
+        # the same clause over every uamiv / lateral_boundary file of the binary universe (extension-less): a file
+        # of one format whose size happens to satisfy another format's record arithmetic must still be detected
+        from ..ref import camx_u
+        wide = []
+        for fmt in ('uamiv', 'lateral_boundary'):
+            for k, dd in enumerate(camx_u.descs(fmt, tier)):
+                wp = os.path.join(tmp, 'wide_%s_%d' % (fmt, k))
+                with open(wp, 'wb') as fh:
+                    fh.write(camx_u.encode(camx_u.materialize(dd)))
+                wide.append({'tag': 'wide_%s_%d' % (fmt, k), 'fmt': fmt, 'path': wp, 'ext': False, 'selfdesc': True,
+                             'kw': {}, 'desc': dd})
+        ctx = mp.get_context('fork')
+        with ctx.Pool(core.NWORKERS) as wpool:
+            wres = wpool.map(_wide, wide, chunksize=8)
+        for e, (a, ex) in zip(wide, wres):
+            vs = []
+            dd = e['desc']
+            if a['reader'].startswith('raise') or (a['dims'], a['data']) != (ex['dims'], ex['data']):
+                vs.append(viol('auto-differs-from-explicit', ('auto', e['fmt'], 'universe'),
+                               '%s %r: auto-detected %s dims %r; format=%s gives %s dims %r'
+                               % (e['fmt'], dd, a['reader'], a['dims'][:4], e['fmt'], ex['reader'], ex['dims'][:4]),
+                               probe='universe', probe_fmt=e['fmt'], probe_ext=False, auto_reader=a['reader'],
+                               shape='x'.join(str(x) for x in dd['shape']), nsteps=dd['nsteps']))
+            core.fold(agg, (0, cid), {'explicit': e['tag'], 'desc': dd},
+                      result('viol' if vs else 'ok-explicit', vs, [h64('file', e['tag'])], 2, h64('ex', e['tag']),
+                             h64(repr(a))))
             cid += 1
         depth = prop.bounds(tier)['depth']
         hists = [[]]
